@@ -154,81 +154,94 @@ def particle_shape(constituents):
 # ---------------------------------------------------------------------------
 # part: direct
 
-WEIGHT = st.one_of(
-    st.just(0),
-    st.integers(1, 5),
-    st.integers(1, 5),
-    st.floats(min_value=1e-3, max_value=10.0, allow_nan=False, allow_infinity=False),
-    st.floats(min_value=1e-3, max_value=10.0, allow_nan=False, allow_infinity=False),
-    st.sampled_from([1e-3, 0.5, 1.0, 0.25, 10.0, 0.0]),
-)
-MASS = st.one_of(
-    st.sampled_from([1.008, 12.011, 14.007, 15.999, 30.974, 32.06, 72.0, 1.0, 250.0]),
-    st.floats(min_value=1.0, max_value=250.0, allow_nan=False, allow_infinity=False),
-)
+# Strategies are written to need few primitive draws (a draw costs ~50 us;
+# bit masks and fixed-size integer lists instead of nested one_of/composite).
+
+def _ints(low, high, size):
+    return st.lists(st.integers(low, high), min_size=size, max_size=size)
 
 
-@st.composite
-def _atoms(draw, n_atoms, wide):
-    centre = [draw(st.integers(-20000, 20000)) for _ in range(3)]
+def decode_weight(code):
+    """One integer in [0, 80000) -> a weight: 0, None (= key absent from
+    mapping_weights), an int 1..5 or a float on a 1e-3 grid in [1e-3, 10]."""
+    sel, value = code % 8, code // 8
+    if sel in (0, 3, 4):
+        return 1 + value % 5
+    if sel == 1:
+        return 0
+    if sel == 2:
+        return None
+    return (value % 10000 + 1) / 1000.0
+
+
+WEIGHT_CODE = st.integers(0, 79999)
+
+
+def _bits(mask, size):
+    return [bool(mask >> i & 1) for i in range(size)]
+
+
+def _draw_atoms(draw, n_atoms, wide):
+    centre = draw(_ints(-20000, 20000, 3))
     span = 20000 if wide else 1000
+    top = 2 ** n_atoms - 1
+    missing = _bits(draw(st.integers(0, top)) & draw(st.integers(0, top)), n_atoms)
+    which = _bits(draw(st.integers(0, top)), n_atoms)
+    offsets = draw(_ints(-span, span, 3 * n_atoms))
+    masses = draw(_ints(1000, 250000, n_atoms))
     atoms = []
-    for _ in range(n_atoms):
-        kind = draw(st.sampled_from(['pos'] * 7 + ['nokey', 'none']))
-        offset = draw(st.one_of(st.just([0, 0, 0]),
-                                st.lists(st.integers(-span, span), min_size=3, max_size=3),
-                                st.lists(st.integers(-span, span), min_size=3, max_size=3),
-                                st.lists(st.integers(-span, span), min_size=3, max_size=3)))
-        atoms.append({'pos': [centre[d] + offset[d] for d in range(3)],
-                      'kind': kind,
-                      'mass': draw(MASS),
-                      'has_mass': True})
+    for i in range(n_atoms):
+        kind = 'pos' if not missing[i] else ('none' if which[i] else 'nokey')
+        atoms.append({'pos': [centre[d] + offsets[3 * i + d] for d in range(3)], 'kind': kind,
+                      'mass': masses[i] / 1000.0, 'has_mass': True})
     return atoms
 
 
 @st.composite
 def _direct_case(draw):
+    head = draw(_ints(0, 11, 8))
     n_atoms = draw(st.integers(1, 12))
-    atoms = draw(_atoms(n_atoms, draw(st.integers(0, 4)) == 0))
-    mass_mode = draw(st.sampled_from(['all'] * 8 + ['some', 'none']))
-    if mass_mode == 'none':
+    n_particles = draw(st.integers(1, 5))
+    atoms = _draw_atoms(draw, n_atoms, head[0] >= 10)
+    if head[1] == 11:
         for atom in atoms:
             atom['has_mass'] = False
-    elif mass_mode == 'some':
+    elif head[1] == 10:
         for atom in atoms:
-            atom['has_mass'] = draw(st.booleans())
-    n_particles = draw(st.integers(1, 5))
+            atom['has_mass'] = int(round(atom['mass'] * 1000)) % 2 == 0
+    flags = draw(_ints(0, 11, 4 * n_particles))
     particles = []
-    for _ in range(n_particles):
-        has_graph = draw(st.integers(0, 11)) != 0
-        size_max = min(8, n_atoms)
-        size = draw(st.one_of(st.integers(1, size_max), st.integers(min(2, size_max), size_max),
-                              st.integers(0, size_max)))
-        members = draw(st.lists(st.integers(0, n_atoms - 1), min_size=size, max_size=size, unique=True))
-        weights_attr = draw(st.integers(0, 9)) != 0
-        weights = []
-        for _ in members:
-            if draw(st.integers(0, 11)) == 0:
-                weights.append(None)  # key absent from mapping_weights: default weight 1
-            else:
-                weights.append(draw(WEIGHT))
-        if draw(st.integers(0, 11)) == 0:
+    for pidx in range(n_particles):
+        f_graph, f_weights, f_order, f_old = flags[4 * pidx:4 * pidx + 4]
+        mask = draw(st.integers(1, 2 ** n_atoms - 1))
+        members = [i for i in range(n_atoms) if mask >> i & 1][:8]
+        order = f_order // 3
+        if order == 1:
+            members = members[::-1]
+        elif order == 2:
+            members = members[1:] + members[:1]
+        elif order == 3:
+            members = members[1:2] + members[:1] + members[2:]
+        if f_weights == 8:
+            members = []
+        weights = [decode_weight(code) for code in draw(st.lists(WEIGHT_CODE, min_size=len(members), max_size=len(members)))]
+        if f_weights == 9:
             weights = [0 for _ in members]
-        old = draw(st.one_of(st.none(), st.lists(st.integers(-5000, 5000), min_size=3, max_size=3)))
-        particles.append({'has_graph': has_graph, 'atoms': members, 'weights': weights,
-                          'weights_attr': weights_attr, 'old': old,
-                          'graph_kind': draw(st.sampled_from(['subgraph', 'subgraph', 'nx']))})
+        old = None if f_old < 6 else [(f_old - 8) * 1000 + pidx, 17 * pidx, -250]
+        particles.append({'has_graph': f_graph != 11, 'atoms': members, 'weights': weights,
+                          'weights_attr': f_weights < 10, 'old': old,
+                          'graph_kind': 'nx' if f_order % 3 == 2 else 'subgraph'})
     call = {
-        'via': draw(st.sampled_from(['function', 'processor', 'processor', 'system'])),
-        'weight': draw(st.sampled_from([None, None, 'mass', 'mass', False])),
-        'center': draw(st.sampled_from(['unset', 'none', 'mass', 'mass'])),
-        'ignore': draw(st.sampled_from([True, True, True, False])),
+        'via': ['function', 'processor', 'processor', 'system'][head[2] % 4],
+        'weight': [None, None, 'mass', 'mass', False, False][head[3] % 6],
+        'center': ['unset', 'none', 'mass', 'mass'][head[4] % 4],
+        'ignore': head[5] % 4 != 3,
     }
     return {
         'atoms': atoms, 'particles': particles, 'call': call,
-        'key0': draw(st.integers(0, 50)), 'stride': draw(st.integers(1, 3)),
+        'key0': head[6] * 4, 'stride': 1 + head[7] % 3,
         'rot': draw(st.integers(0, 23)),
-        'trans': draw(st.lists(st.integers(-30000, 30000), min_size=3, max_size=3)),
+        'trans': draw(_ints(-30000, 30000, 3)),
     }
 
 
@@ -498,28 +511,32 @@ def _run_direct(case):
 
 @st.composite
 def _e2e_case(draw):
+    head = draw(_ints(0, 11, 4))
     n_types = draw(st.integers(1, 3))
     restypes = []
     for _ in range(n_types):
         n_atoms = draw(st.integers(2, 6))
-        parents = [draw(st.integers(0, i - 1)) for i in range(1, n_atoms)]
         n_beads = draw(st.integers(1, 3))
+        parents = [p % i for i, p in enumerate(draw(_ints(0, 59, n_atoms - 1)), start=1)]
+        targets = draw(_ints(0, 11, n_atoms))
+        codes = draw(st.lists(WEIGHT_CODE, min_size=2 * n_atoms, max_size=2 * n_atoms))
         mapping = []
-        for _ in range(n_atoms):
-            targets = draw(st.lists(st.integers(0, n_beads - 1), min_size=1, max_size=min(2, n_beads), unique=True))
-            mapping.append([[t, draw(WEIGHT)] for t in targets])
+        for aidx in range(n_atoms):
+            first = targets[aidx] % n_beads
+            entry = [[first, decode_weight(codes[2 * aidx])]]
+            if n_beads > 1 and targets[aidx] >= 6:
+                second = (first + 1 + (targets[aidx] // 3) % (n_beads - 1)) % n_beads
+                entry.append([second, decode_weight(codes[2 * aidx + 1])])
+            # a mapping always states a weight: "absent" does not exist here
+            mapping.append([[bead, 1 if weight is None else weight] for bead, weight in entry])
         restypes.append({'n_atoms': n_atoms, 'parents': parents, 'n_beads': n_beads,
-                         'dummy': draw(st.integers(0, 3)) == 0, 'mapping': mapping})
-    n_res = draw(st.integers(1, 4))
-    residues = []
-    for _ in range(n_res):
-        rtype = draw(st.integers(0, n_types - 1))
-        atoms = draw(_atoms(restypes[rtype]['n_atoms'], False))
-        residues.append({'type': rtype, 'atoms': atoms})
+                         'dummy': draw(st.integers(0, 3)) == 3, 'mapping': mapping})
+    rtypes = draw(st.lists(st.integers(0, n_types - 1), min_size=1, max_size=4))
+    residues = [{'type': rtype, 'atoms': _draw_atoms(draw, restypes[rtype]['n_atoms'], False)} for rtype in rtypes]
     return {'restypes': restypes, 'residues': residues,
-            'center': draw(st.sampled_from(['unset', 'mass', 'mass'])),
-            'normalize': draw(st.booleans()),
-            'mass_on_block': draw(st.booleans())}
+            'center': ['unset', 'mass', 'mass'][head[0] % 3],
+            'normalize': head[1] % 2 == 1,
+            'mass_on_block': head[2] % 2 == 1}
 
 
 def _strategy_e2e(tier):
